@@ -8,7 +8,8 @@ from libcpp.pair cimport pair
 from .nnps_base cimport *
 
 ctypedef unsigned int u_int
-ctypedef map[u_int, pair[u_int, u_int]] key_to_idx_t
+ctypedef unsigned long long cell_key_t
+ctypedef map[cell_key_t, pair[u_int, u_int]] key_to_idx_t
 
 cdef extern from 'math.h':
     double log(double) nogil
@@ -18,8 +19,8 @@ cdef class CellIndexingNNPS(NNPS):
     ############################################################################
     # Data Attributes
     ############################################################################
-    cdef u_int** keys
-    cdef u_int* current_keys
+    cdef cell_key_t** keys
+    cdef cell_key_t* current_keys
 
     cdef key_to_idx_t** key_indices
     cdef key_to_idx_t* current_indices
@@ -35,16 +36,16 @@ cdef class CellIndexingNNPS(NNPS):
     # Member functions
     ##########################################################################
 
-    cdef inline u_int _get_key(self, u_int n, u_int i, u_int j,
+    cdef inline cell_key_t _get_key(self, u_int n, u_int i, u_int j,
             u_int k, int pa_index) noexcept nogil
 
-    cdef inline int _get_id(self, u_int key, int pa_index) noexcept nogil
+    cdef inline int _get_id(self, cell_key_t key, int pa_index) noexcept nogil
 
-    cdef inline int _get_x(self, u_int key, int pa_index) noexcept nogil
+    cdef inline int _get_x(self, cell_key_t key, int pa_index) noexcept nogil
 
-    cdef inline int _get_y(self, u_int key, int pa_index) noexcept nogil
+    cdef inline int _get_y(self, cell_key_t key, int pa_index) noexcept nogil
 
-    cdef inline int _get_z(self, u_int key, int pa_index) noexcept nogil
+    cdef inline int _get_z(self, cell_key_t key, int pa_index) noexcept nogil
 
     cdef inline int _neighbor_boxes(self, int i, int j, int k,
             int* x, int* y, int* z) noexcept nogil
@@ -59,7 +60,7 @@ cdef class CellIndexingNNPS(NNPS):
     cpdef get_spatially_ordered_indices(self, int pa_index, LongArray indices)
 
     cdef void fill_array(self, NNPSParticleArrayWrapper pa_wrapper, int pa_index,
-            UIntArray indices, u_int* current_keys, key_to_idx_t* current_indices) noexcept nogil
+            UIntArray indices, cell_key_t* current_keys, key_to_idx_t* current_indices) noexcept nogil
 
     cpdef _refresh(self)
 
